@@ -9,7 +9,8 @@ namespace SmtpV.Driver.Sched
 open SmtpV SmtpV.Lifecycle
 
 def parseOutcome (s : String) : Option Outcome :=
-  match s with | "conn" => some .conn | "temp" => some .temp | "perm" => some .perm | _ => none
+  -- (`tlshang`: an implicit-TLS connection stuck in its handshake — for the lifecycle model just a connection)
+  match s with | "conn" => some .conn | "tlshang" => some .conn | "temp" => some .temp | "perm" => some .perm | _ => none
 
 def parseEnding (s : String) : Ending :=
   match s with | "close" => .close | "shutdown" => .shutdown | _ => .none
